@@ -388,7 +388,10 @@ def oracle(case, rec):
             STATS["kernels"].add(k)
         # the faulting kernel was reached by definition
         rec.nontrivial(True if (small or n_gt_t) else None)
-        rec.fail("%s__%s__%s" % (entry, rep["kind"], rep["func"]),
+        reg = aw.ENTRIES[entry]["region"]
+        tag = reg(case) if reg else None
+        rec.fail("%s__%s__%s%s" % (entry, rep["kind"], rep["func"],
+                                   "__" + tag if tag else ""),
                  "%s | at %s | frames: %s" % (
                      rep["summary"], rep["where"],
                      " <- ".join(rep["frames"][:3])))
@@ -411,10 +414,11 @@ def oracle(case, rec):
         rec.nontrivial(True)
     for s in excs:
         if s.get("guard"):
-            rec.label("guard_tripped:" + str(s.get("kernel")))
+            kern = str(s.get("kernel")).rsplit(".", 1)[-1]
+            rec.label("guard_tripped:" + kern)
             if res.get("wellformed"):
                 rec.fail("%s__cython_bounds_guard_tripped__%s" % (
-                    entry, s.get("kernel")),
+                    entry, kern),
                     "step %s raised %s: %s on a well-formed case" % (
                         s["step"], s["exc"], s["msg"]))
 
@@ -441,7 +445,9 @@ def grid_cases(tier, seed):
         for p in range(e["variants"]):
             j = i * 31 + p * 7 + off
             if tier == "quick":
-                combos = [(aw.VCLASSES[j % nv], aw.DTYPES[(j // nv) % nd])]
+                combos = [(aw.VCLASSES[(j + c) % nv],
+                           aw.DTYPES[(j // nv + 2 * c + c // 2) % nd])
+                          for c in range(3)]
             else:
                 combos = [(vc, dt) for vc in aw.VCLASSES for dt in aw.DTYPES]
             for c, (vc, dt) in enumerate(combos):
@@ -524,17 +530,93 @@ def _confirm_fresh(ctx):
                                  []).append(sig)
 
 
-def run_grid(ctx):
+def _begin(ctx):
     TIER[0] = ctx.tier
+    # entry points named by a known finding crash by definition: run them in
+    # forked grandchildren from the start (no 3 s re-import per shard)
+    for k in ctx.known:
+        for name in aw.ENTRY_NAMES:
+            if name in k.get("signature", ""):
+                FORK_ENTRIES.add(name)
+
+
+def run_grid(ctx):
+    _begin(ctx)
     pbt.run_enum(ctx, grid_cases(ctx.tier, ctx.seed), oracle, cap=ctx.n)
     _confirm_fresh(ctx)
     _finish(ctx)
 
 
+def _fails_clause(case, clause):
+    rec = pbt.evaluate(oracle, case)
+    for c, d in rec.fails:
+        if c == clause:
+            return d
+    return None
+
+
+def shrink_case(case, clause, budget):
+    """Greedy descent on the literal case (Hypothesis' byte-level shrinker
+    needs far more evaluations than a crash every 0.5 s allows): neutral
+    dtype / layout / value class / variant / seeds first, then every size
+    towards 0."""
+    best = dict(case, d=list(case["d"]))
+    detail = None
+    calls = 0
+
+    def attempt(cand):
+        nonlocal best, detail, calls
+        if calls >= budget or cand == best:
+            return False
+        if aw.ENTRIES[cand["entry"]]["region"] is not None and \
+                aw.ENTRIES[cand["entry"]]["region"](cand) != \
+                aw.ENTRIES[best["entry"]]["region"](best):
+            return False
+        calls += 1
+        d = _fails_clause(cand, clause)
+        if d is not None:
+            best, detail = cand, d
+            return True
+        return False
+
+    for key, val in (("vc", "random"), ("dtype", "f8"), ("layout", "c"),
+                     ("p", 0), ("vs", 0), ("s1", 0), ("s2", 0)):
+        attempt(dict(best, **{key: val}))
+    progress = True
+    while progress and calls < budget:
+        progress = False
+        for i in range(len(best["d"])):
+            for v in sorted({0, 1, 2, 3, best["d"][i] // 2,
+                             best["d"][i] - 1}):
+                if 0 <= v < best["d"][i]:
+                    d2 = list(best["d"])
+                    d2[i] = v
+                    if attempt(dict(best, d=d2)):
+                        progress = True
+                        break
+    return best, detail, calls
+
+
 def run_random(ctx):
-    TIER[0] = ctx.tier
-    pbt.run_cases(ctx, random_cases(), oracle, ctx.n,
-                  shrink_budget=120 if ctx.tier == "quick" else 600)
+    import hypothesis
+    from hypothesis import Phase, given
+    _begin(ctx)
+
+    @hypothesis.seed(ctx.unit_seed)
+    @pbt._settings(ctx.n, [Phase.generate])  # pylint: disable=W0212
+    @given(random_cases())
+    def collect(case):
+        ctx.absorb(case, pbt.evaluate(oracle, case))
+
+    collect()
+    budget = 60 if ctx.tier == "quick" else 300
+    for sig, m in sorted(ctx.mism.items()):
+        case, detail, calls = shrink_case(m["case"], m["clause"], budget)
+        m["case"] = case
+        m["detail"] = detail or m["detail"]
+        ctx.extra.setdefault("shrink_calls", {})[sig] = calls
+        m["replay"] = pbt.write_replay(ctx, sig, m["clause"], case,
+                                       m["detail"])
     _confirm_fresh(ctx)
     _finish(ctx)
 
@@ -543,7 +625,7 @@ def run_coverage(ctx):
     """Fixture-sized call of every entry point / variant: which _ext
     functions does the table reach at all?  An unreached kernel is a gap of
     this harness (reported, not a verdict about the library)."""
-    TIER[0] = ctx.tier
+    _begin(ctx)
     pbt.run_enum(ctx, smoke_cases(ctx.seed), oracle)
     c = child()
     if not c.kernel_names:
@@ -561,8 +643,8 @@ def run_coverage(ctx):
 SUBCHECKS = [
     SubCheck("coverage", oracle, run=run_coverage, quick=(1, None),
              thorough=(1, None), timeout=(900, 3600)),
-    SubCheck("grid", oracle, run=run_grid, quick=(11, None),
+    SubCheck("grid", oracle, run=run_grid, quick=(13, None),
              thorough=(15, None), timeout=(900, 14400)),
-    SubCheck("random", oracle, run=run_random, quick=(4, 450),
+    SubCheck("random", oracle, run=run_random, quick=(2, 900),
              thorough=(12, 3500), timeout=(900, 14400)),
 ]
